@@ -129,3 +129,46 @@ pub fn uniform_word(low: f64, high: f64, x: f64) -> u64 {
     let f = (frac * (1u64 << 52) as f64) as u64;
     f.min((1u64 << 52) - 1) << 12
 }
+
+use rand_xoshiro::Xoshiro256StarStar;
+
+/// the seeded stream with rare words spliced in (all ones, zero, the largest and smallest
+/// mantissas of the f32 / f64 conversions): a deterministic machine must not notice which
+/// words it is given, however unlikely they are
+#[derive(Clone)]
+pub struct Spiked {
+    pub inner: Xoshiro256StarStar,
+    pub lcg: u64,
+    pub on: bool,
+}
+impl rand_core::RngCore for Spiked {
+    fn next_u32(&mut self) -> u32 {
+        (self.next_u64() >> 32) as u32
+    }
+    fn next_u64(&mut self) -> u64 {
+        let w = rand_core::RngCore::next_u64(&mut self.inner);
+        if !self.on {
+            return w;
+        }
+        self.lcg = self.lcg.wrapping_mul(6364136223846793005).wrapping_add(1442695040888963407);
+        match (self.lcg >> 33) % 24 {
+            0 | 1 => u64::MAX,
+            2 => 0,
+            3 => 0xFFFF_FE00_0000_0000, // the top 23 bits: the largest f32 mantissa
+            4 => 0xFFFF_FFFF_FFFF_F800, // the top 53 bits: the largest f64 mantissa
+            5 => 0x0000_01FF_FFFF_FFFF, // all zero mantissa bits
+            _ => w,
+        }
+    }
+    fn fill_bytes(&mut self, dest: &mut [u8]) {
+        for chunk in dest.chunks_mut(8) {
+            let w = self.next_u64().to_le_bytes();
+            chunk.copy_from_slice(&w[..chunk.len()]);
+        }
+    }
+    fn try_fill_bytes(&mut self, dest: &mut [u8]) -> Result<(), rand_core::Error> {
+        self.fill_bytes(dest);
+        Ok(())
+    }
+}
+
